@@ -85,6 +85,25 @@ CHECKS = {
         "Trusted: Coq kernel; jr.permutation returns a permutation / jr.choice(replace=False) distinct indices (oracles in the theorems, checked on every case); moveaxis/reshape/take semantics tied by id comparison; the end-to-end part swaps Adam for SGD(1.0) to decode visits.",
         "DESIGN.md §5 C09",
     ),
+    "C10": (
+        "Coq proof (induction over iterations with ARBITRARY gradient-step functions; closed form of Polyak averaging over R; gating lemma) + observation of real DQN/SAC learner states and learn() records decided in Coq",
+        "Theorems: floor division budget; counter = number of iterations; DQN target = online network as of the most recent multiple of the interval, unchanged in between; SAC target follows tau*theta+(1-tau)*theta' exactly once per iteration with closed form; actor/temperature change only when the pre-increment counter is a multiple of policy_frequency, temperature only with autotune. "
+        "Tie: real DQN and SAC reset()+iteration() with small networks: counter, bitwise copy/unchanged pattern of the target, Polyak identity in float32, changed-pattern of actor and log_alpha; number and cumulative steps of records from learn() for PPO/DQN(/SAC).",
+        "Trusted: Coq kernel; Reals axioms for the Polyak closed form; optimiser steps are abstract functions (their content is irrelevant to the schedule); bitwise equality used to observe copies.",
+        "DESIGN.md §5 C10",
+    ),
+    "C15": (
+        "Coq proof over R (discrete laws: mass 1, prob=exp log_prob, Shannon entropy, product-law sums by induction over components, flat=sequence parameterisation; squashing bijector: range, derivative (Coquelicot), log-det-Jacobian, change of variables; diagonal normal sums) + oracle-assisted correspondence with the real lerax distributions evaluated in Coq",
+        "28 theorems for all valid parameters of the seven distribution classes. Tie: real Bernoulli/Categorical/MultiCategorical/Normal/MultivariateNormalDiag/SquashedNormal/SquashedMultivariateNormalDiag on rational parameters with exp/log supplied as oracle values (tolerance), exhaustive sums for discrete laws.",
+        "Trusted: Coq kernel; Reals axioms + Classical_Prop.classic (Coquelicot). NOT proved, explored numerically with false-alarm probability <= 1e-9: Gaussian integral = 1 and squashed mass = 1 (quadrature), samples follow the density (KS/Hoeffding), normal entropy = -E[log p]; distreqx internals modelled from their formulas and tied by the check.",
+        "DESIGN.md §5 C15",
+    ),
+    "C16": (
+        "Coq proof over R with extended logits (masked probability 0, proportional renormalisation, mode and Gumbel-arg-max sample allowed for EVERY noise vector, Bernoulli and per-component MultiCategorical analogues, greedy without key, epsilon-greedy departs only below epsilon) + exhaustive-mask correspondence with real distributions and policies evaluated in Coq",
+        "26 theorems for all logits and all masks with at least one allowed action. Tie: all non-empty masks for n<=5 (thorough: n<=6) x random logits x many keys through real masked distributions, MLPActorCriticPolicy (Discrete, MultiDiscrete, MultiBinary) and MLPQPolicy (stochastic, deterministic, epsilon-greedy); network outputs treated as oracle logits.",
+        "Trusted: Coq kernel; Reals axioms + classic; jax.random.categorical = arg-max of logits + Gumbel noise and jax.random.bernoulli = (u < p) are tied on every case, not proved; the epsilon bound on the departure probability is a statement about the uniform draw (explored with Hoeffding slack).",
+        "DESIGN.md §5 C16",
+    ),
 }
 
 NOT_YET = "check not built yet in this round (planned: see DESIGN.md §5)"
